@@ -23,6 +23,7 @@ class NodeNA(persistent.Persistent):
 
 
 RESOLVE_LOG = []
+CMP_LOG = []
 
 
 class Counter(persistent.Persistent):
@@ -56,6 +57,19 @@ class RCounter(persistent.Persistent):
 
     def _p_resolveConflict(self, old, committed, new):
         RESOLVE_LOG.append((old, committed, new))
+        # what a resolver may ask about the references it is handed (IPersistentReference): compare them
+        import operator
+        from ZODB.ConflictResolution import PersistentReference as PR
+        for x, y in ((old, committed), (old, new), (committed, new)):
+            for k in sorted(set(x) & set(y)):
+                a, b = x[k], y[k]
+                if isinstance(a, PR) and isinstance(b, PR):
+                    for opname in ('eq', 'ne', 'le', 'gt'):
+                        try:
+                            r = getattr(operator, opname)(a, b)
+                        except ValueError:
+                            r = 'ValueError'
+                        CMP_LOG.append((k, opname, r, a is b, (a.oid, a.database_name, a.weak), (b.oid, b.database_name, b.weak)))
         if new.get('x_raise'):
             # this one resolution fails, with an exception type chosen by the generator
             import builtins
